@@ -1,0 +1,16 @@
+//go:build verif
+// +build verif
+
+// Package verifhook provides yield points for the deterministic scheduler of the verification harness.
+// With the build tag `verif` off (the default) Point is an empty function.
+package verifhook
+
+// Yield, when set, is called at every instrumented lock-free window with the name of the site.
+var Yield func(site string)
+
+// Point marks a lock-free window: a place where another goroutine may run between two synchronised regions.
+func Point(site string) {
+	if Yield != nil {
+		Yield(site)
+	}
+}
